@@ -49,6 +49,9 @@ func NewWriter() *Writer {
 	return w
 }
 
+// SetFailAck makes WriteStreamOpenAck fail (the peer vanished before the ACK could be written).
+func (w *Writer) SetFailAck(v bool) { w.mu.Lock(); w.FailAck = v; w.mu.Unlock() }
+
 func (w *Writer) WriteStreamData(peerID identity.AgentID, streamID uint64, data []byte, flags uint8) error {
 	w.mu.Lock()
 	w.data[streamID] = append(w.data[streamID], DataMsg{append([]byte(nil), data...), flags})
